@@ -11,6 +11,7 @@ import (
 	"encoding/hex"
 	"errors"
 	"fmt"
+	"hash/fnv"
 	"io"
 	"strconv"
 	"strings"
@@ -25,22 +26,39 @@ import (
 )
 
 const Rule = "cases = (source bytes, buffer size n, reader script, call sequence) drawn from VERIF_SEED: sources over " +
-	"{a-e, newline, 2/3/4-byte runes incl. the first and last scalar of every length, NUL (separate stream), every class " +
-	"of ill-formed UTF-8 (separate stream)} with lengths around multiples of n and 2n and empty; n in 1..8 plus 16 and 64; " +
+	"{a-e, blank, newline, CR, TAB, 2/3/4-byte runes incl. the first and last scalar of every length and runes that coincide with " +
+	"something internal or conventional (U+FFFD, U+EEEE = grammar.Endmarker, U+FEFF, U+2028, U+0085), NUL (separate stream), every " +
+	"class of ill-formed UTF-8 (separate stream)} with lengths around multiples of n and 2n and empty; n in 1..8 plus 16 and 64; " +
 	"readers full / one-byte / half / data-with-EOF / random scripts of chunk caps with zero-length reads and EOF-with-data; " +
-	"comp=input keeps the pending lexeme <= n bytes (the property's precondition) and mixes next/retract/lexeme/skip incl. " +
+	"comp=input keeps the pending lexeme <= n bytes (the property's precondition; from the first call that breaks it on — only " +
+	"shrunk or hand-written sequences do — the oracle is silent) and mixes next/retract/lexeme/skip incl. " +
 	"scanner-style 'read until delimiter, retract, lexeme'; comp=stream is next-only for any n; comp=wild ignores the " +
 	"precondition and injects I/O errors (no oracle, implementation vs Model only); every string returned by Lexeme is kept " +
-	"uncopied for the whole case and compared after every later call with a deep copy taken at receipt and with the " +
-	"source span (in every stream); non-trivial = the case reloaded a buffer " +
+	"uncopied for the whole case (across op reset: while later Inputs work) and compared after later calls with a deep copy taken " +
+	"at receipt and with the source span (in every stream); " +
+	"SIZE SWEEP: n in {63,64,65, 100,101,102, 127,128,129, 255,256,257, 1023,1024,1025, 4095,4096,4097, 65536} x readers {full, k bytes " +
+	"per Read for k=1..7, half, data-with-EOF alone and with short reads, (0,nil) answers interleaved and up to 1000 in a row (the " +
+	"loop of load has no limit on empty reads: any finite number is tolerated, the Model's fuel is the script length), mixtures} x " +
+	"source lengths {0,1,n-1,n,n+1,2n-1,2n,2n+1,10n} with a multi-byte rune straddling every multiple of n at every split, filled " +
+	"with text of period 23 (no half repeats the one it replaces); call sequences of batches of Next (op nexts k) up to shortly " +
+	"before each half boundary, single calls with retractions across it, lexemes of exactly n bytes (and, comp=wild, n+1..2n+1), " +
+	"the end of input read into and retracted out of; quick: per n one reader that needs > 100 Reads per half for certain plus a " +
+	"handful of random (reader, length, style), thorough: the whole grid; for n > 64 the header says dump=sum and buffer, stacks and " +
+	"lexemes are compared by FNV-1a hash (the Lean Model runs every one of these cases: no oracle-only cases); comp=wild also: " +
+	"readers that fail once (at once / while the 2nd or 3rd half is loaded, with and without bytes) and recover, end of input " +
+	"signalled by an error WRAPPING io.EOF or by an error of a custom type (to the code: I/O errors), buffer size 0 (New succeeds, " +
+	"Next panics); LONG HISTORIES: 2000-6000 calls on one Input at n in 1..64; " +
+	"non-trivial = the case reloaded a buffer " +
 	"half and also (used a reader with short reads or EOF-with-data, or consumed a rune straddling a half boundary, or " +
 	"retracted across a half boundary or at end of input), or an ill-formed sequence was reported; every case gives New a file " +
-	"name (empty, plain, with a directory and a non-ASCII rune, with a space, with ':' and '='); every position that comes back " +
+	"name (empty, plain, with a directory and a non-ASCII rune, with a space, with ':' and '=', formatting verbs, quotes, a " +
+	"backslash, the end marker, digits and colons that look like a position); every position that comes back " +
 	"(Lexeme, Skip, inside the *InputError of Next) is also rendered through Position.String() resp. (*InputError).Error() and " +
 	"compared byte for byte with the Model and with a hand-formatted expectation; comp=position applies Position.String/Equal/" +
 	"IsZero and Token.String/Equal to explicit values (ops pos, tok: file name empty or not, line and column positive or not, " +
 	"equal and differing in exactly one field, zero and non-zero in exactly one field, the end marker terminal, names that %q " +
-	"escapes) and is non-trivial when it rendered both forms of a position and saw Equal true and false; " +
+	"escapes) and is non-trivial when it rendered both forms of a position and saw Equal true and false; thorough: every call " +
+	"sequence of length <= 7 (64 per case, separated by op reset = drop the Input, make another over the same source); " +
 	"distinct = distinct (header, op list)"
 
 // ---------------------------------------------------------------- scripted reader
@@ -48,15 +66,27 @@ const Rule = "cases = (source bytes, buffer size n, reader script, call sequence
 type answer struct {
 	half bool // cap = (len(p)+1)/2
 	cap  int
-	flag byte // 'n' none, 'e' EOF together with the last data, 'x' I/O error
+	flag byte // 'n' none, 'e' EOF together with the last data, 'x' I/O error, 'w' an error wrapping io.EOF, 'c' an error of a custom type
 }
 
 type script struct {
 	ans     []answer
 	tailEOF bool
+	// cycle: these answers over and over, cycleLeft answers in all ((source length + 2) rounds), then as without a script
+	cycle     []answer
+	cycleLeft int
+	cyclePos  int
 }
 
 var errIO = errors.New("verif: i/o error")
+
+// errWrappedEOF: errors.Is(err, io.EOF) but err != io.EOF. The io.Reader contract asks for io.EOF itself ("callers
+// will test for EOF using =="), so to the code under test this is an I/O error like any other.
+var errWrappedEOF = fmt.Errorf("verif: read: %w", io.EOF)
+
+type customErr struct{ code int }
+
+func (e *customErr) Error() string { return "verif: custom error " + strconv.Itoa(e.code) }
 
 type reader struct {
 	rest []byte
@@ -71,6 +101,11 @@ func (r *reader) Read(p []byte) (int, error) {
 	scripted := false
 	if len(r.s.ans) > 0 {
 		a, r.s.ans = r.s.ans[0], r.s.ans[1:]
+		scripted = true
+	} else if r.s.cycleLeft > 0 {
+		a = r.s.cycle[r.s.cyclePos]
+		r.s.cyclePos = (r.s.cyclePos + 1) % len(r.s.cycle)
+		r.s.cycleLeft--
 		scripted = true
 	} else if r.s.tailEOF {
 		a.flag = 'e'
@@ -89,8 +124,13 @@ func (r *reader) Read(p []byte) (int, error) {
 	if m < len(p) && len(r.rest) > 0 {
 		r.short++
 	}
-	if a.flag == 'x' {
+	switch a.flag {
+	case 'x':
 		return m, errIO
+	case 'w':
+		return m, errWrappedEOF
+	case 'c':
+		return m, &customErr{code: r.calls}
 	}
 	stall := scripted && !a.half && a.cap == 0 && a.flag == 'n'
 	if m == 0 && stall {
@@ -109,14 +149,11 @@ func (r *reader) Read(p []byte) (int, error) {
 	return m, nil
 }
 
-// parseReader: full | one | half | dataeof | chunks:<tok>,<tok>,…  with tok = (h|<cap>)[e|x] or E (tail reports EOF with data)
+// parseReader: full | one | half | dataeof | chunks:<tok>,<tok>,… | cycle:<tok>,<tok>,…  with tok = (h|<cap>)[e|x|w|c]
+// or E (tail reports EOF with data) or <count>*<tok>; cycle = the token list repeated (source length + 2) times
 func parseReader(spec string, srcLen int) (script, bool) {
 	rep := func(a answer) script {
-		s := script{}
-		for i := 0; i < srcLen+2; i++ {
-			s.ans = append(s.ans, a)
-		}
-		return s
+		return script{cycle: []answer{a}, cycleLeft: srcLen + 2}
 	}
 	switch spec {
 	case "full", "":
@@ -128,11 +165,12 @@ func parseReader(spec string, srcLen int) (script, bool) {
 	case "half":
 		return rep(answer{half: true, flag: 'n'}), true
 	}
-	if !strings.HasPrefix(spec, "chunks:") {
+	cyc := strings.HasPrefix(spec, "cycle:")
+	if !strings.HasPrefix(spec, "chunks:") && !cyc {
 		return script{}, false
 	}
 	s := script{}
-	body := strings.TrimPrefix(spec, "chunks:")
+	body := strings.TrimPrefix(strings.TrimPrefix(spec, "chunks:"), "cycle:")
 	if body == "" {
 		return s, true
 	}
@@ -141,35 +179,144 @@ func parseReader(spec string, srcLen int) (script, bool) {
 			s.tailEOF = true
 			continue
 		}
+		count := 1
+		if parts := strings.Split(tok, "*"); len(parts) == 2 {
+			v, err := strconv.Atoi(parts[0])
+			if err != nil || v < 0 || !decimal(parts[0]) {
+				return script{}, false
+			}
+			count, tok = v, parts[1]
+		} else if len(parts) != 1 {
+			return script{}, false
+		}
 		a := answer{flag: 'n'}
-		if strings.HasSuffix(tok, "e") {
-			a.flag = 'e'
-			tok = tok[:len(tok)-1]
-		} else if strings.HasSuffix(tok, "x") {
-			a.flag = 'x'
-			tok = tok[:len(tok)-1]
+		if tok == "E" {
+			return script{}, false
+		}
+		if l := len(tok); l > 0 && strings.IndexByte("exwc", tok[l-1]) >= 0 {
+			a.flag = tok[l-1]
+			tok = tok[:l-1]
 		}
 		if tok == "h" {
 			a.half = true
 		} else {
 			v, err := strconv.Atoi(tok)
-			if err != nil || v < 0 {
+			if err != nil || v < 0 || !decimal(tok) {
 				return script{}, false
 			}
 			a.cap = v
 		}
-		s.ans = append(s.ans, a)
+		for ; count > 0; count-- {
+			s.ans = append(s.ans, a)
+		}
+	}
+	if cyc {
+		s.cycle, s.ans = s.ans, nil
+		if len(s.cycle) > 0 {
+			s.cycleLeft = len(s.cycle) * (srcLen + 2)
+		}
 	}
 	return s, true
 }
 
+// decimal: digits only (strconv.Atoi also takes a sign, String.toNat? of the Lean driver does not)
+func decimal(w string) bool {
+	if w == "" {
+		return false
+	}
+	for i := 0; i < len(w); i++ {
+		if w[i] < '0' || w[i] > '9' {
+			return false
+		}
+	}
+	return true
+}
+
 func (s script) hasIOErr() bool {
-	for _, a := range s.ans {
-		if a.flag == 'x' {
-			return true
+	for _, as := range [][]answer{s.ans, s.cycle} {
+		for _, a := range as {
+			if a.flag == 'x' || a.flag == 'w' || a.flag == 'c' {
+				return true
+			}
 		}
 	}
 	return false
+}
+
+// parseSrc: <seg>+<seg>+… with seg = x<hex> | <count>*x<hex>
+func parseSrc(spec string) ([]byte, bool) {
+	var src []byte
+	for _, seg := range strings.Split(spec, "+") {
+		count := 1
+		if parts := strings.Split(seg, "*"); len(parts) == 2 {
+			v, err := strconv.Atoi(parts[0])
+			if err != nil || !decimal(parts[0]) {
+				return nil, false
+			}
+			count, seg = v, parts[1]
+		} else if len(parts) != 1 {
+			return nil, false
+		}
+		if !strings.HasPrefix(seg, "x") {
+			return nil, false
+		}
+		b, err := hex.DecodeString(seg[1:])
+		if err != nil {
+			return nil, false
+		}
+		for ; count > 0; count-- {
+			src = append(src, b...)
+		}
+	}
+	return src, true
+}
+
+func fnvBytes(b []byte) string {
+	h := fnv.New64a()
+	h.Write(b)
+	return fmt.Sprintf("%016x", h.Sum64())
+}
+
+// sumDump replaces buf=x<hex> of a state dump by buf=h<FNV-1a 64 of the buffer> (header dump=sum)
+func sumDump(d string) string {
+	if !strings.HasPrefix(d, "buf=x") {
+		return d
+	}
+	end := strings.IndexByte(d, ' ')
+	if end < 0 {
+		end = len(d)
+	}
+	b, err := hex.DecodeString(d[5:end])
+	if err != nil {
+		return d
+	}
+	d = "buf=h" + fnvBytes(b) + d[end:]
+	// the two stacks: length and hash of the values, bottom first
+	for _, key := range []string{" rs=[", " lc=["} {
+		a := strings.Index(d, key)
+		if a < 0 {
+			continue
+		}
+		z := strings.IndexByte(d[a:], ']')
+		if z < 0 {
+			continue
+		}
+		body := d[a+len(key) : a+z]
+		h, cnt := uint64(0xcbf29ce484222325), 0
+		for len(body) > 0 {
+			w := body
+			if sp := strings.IndexByte(body, ' '); sp >= 0 {
+				w, body = body[:sp], body[sp+1:]
+			} else {
+				body = ""
+			}
+			v, _ := strconv.ParseInt(w, 10, 64)
+			h = (h ^ uint64(v)) * 0x100000001b3
+			cnt++
+		}
+		d = d[:a] + key[:4] + "n" + strconv.Itoa(cnt) + ":h" + fmt.Sprintf("%016x", h) + d[a+z+1:]
+	}
+	return d
 }
 
 // ---------------------------------------------------------------- oracle helpers
@@ -365,15 +512,20 @@ func Exec(c hx.Case) hx.Result {
 func exec(c hx.Case) hx.Result {
 	comp := hx.HeaderGet(c.Header, "comp")
 	n, _ := strconv.Atoi(hx.HeaderGet(c.Header, "n"))
-	srcHex := strings.TrimPrefix(hx.HeaderGet(c.Header, "src"), "x")
-	src, _ := hex.DecodeString(srcHex)
-	sc, okReader := parseReader(hx.HeaderGet(c.Header, "reader"), len(src))
+	srcSpec := hx.HeaderGet(c.Header, "src")
+	if srcSpec == "" {
+		srcSpec = "x"
+	}
+	src, okSrc := parseSrc(srcSpec)
+	readerSpec := hx.HeaderGet(c.Header, "reader")
+	sc, okReader := parseReader(readerSpec, len(src))
+	sum := hx.HeaderGet(c.Header, "dump") == "sum"
 	file, okFile := "", true
 	if w := hx.HeaderGet(c.Header, "file"); w != "" {
 		file, okFile = parseStr(w)
 	}
 	res := hx.Result{BadOp: -1}
-	if !okReader || !okFile || n < 1 {
+	if !okSrc || !okReader || !okFile || n < 0 || (n < 1 && comp != "wild") {
 		for range c.Ops {
 			res.Outs = append(res.Outs, "bad-case")
 		}
@@ -390,6 +542,7 @@ func exec(c hx.Case) hx.Result {
 	tags := map[string]bool{}
 
 	rd := &reader{rest: append([]byte{}, src...), s: sc}
+	rd0, short, zero, dataEOF := rd, 0, 0, 0 // statistics of the readers of earlier Inputs of the case (op reset)
 	var in *input.Input
 	closed := false
 
@@ -409,21 +562,107 @@ func exec(c hx.Case) hx.Result {
 		wanted bool
 	}
 	var kept []keptLexeme
-	recheck := func(at int) {
-		for _, k := range kept {
+	recheck := func(at int, all bool) {
+		from := 0
+		if !all && len(kept) > 128 {
+			from = len(kept) - 128 // every 64th op and at the end of the case all of them are read again
+		}
+		for _, k := range kept[from:] {
 			if k.got != k.clone {
 				bad(at, "", "the lexeme returned at op %d (%q) changed later: after op %d the same string reads %q",
 					k.op, k.clone, at, strings.Clone(k.got))
 				tags["kept-lexeme-changed"] = true
 				return
 			}
-			if k.wanted && k.got != k.want {
+			if checked && k.wanted && k.got != k.want {
 				bad(at, "", "the lexeme returned at op %d no longer equals the source span %q: it reads %q", k.op, k.want, strings.Clone(k.got))
 				return
 			}
 		}
 	}
 	lastWasNextOK := false
+
+	// showNext prints what Next returned; the text of an *InputError is checked against the documented format at once
+	showNext := func(i int, r rune, err error) string {
+		var ie *input.InputError
+		switch {
+		case err == nil:
+			return "ok r " + strconv.Itoa(int(r))
+		case err == io.EOF:
+			return "ok err eof"
+		case errors.As(err, &ie):
+			text := err.Error()
+			// formatting, whatever the stream: Error() is the position as Position.String documents it, ": ", the description
+			if want := wantPosString(file, ie.Pos.Offset, ie.Pos.Line, ie.Pos.Column) + ": " + ie.Description; text != want {
+				bad(i, "", "the error of next reads %q, want %q (file name given to New %q, position %s)", text, want, file, posFields(ie.Pos))
+			}
+			tags["error-text"] = true
+			return "ok err utf8 " + posStr(ie.Pos) + " " + quoted(text)
+		default:
+			return "ok err other"
+		}
+	}
+	// checkNext: the oracle for one call of Next
+	checkNext := func(i int, r rune, err error) {
+		var ie *input.InputError
+		if err != nil && err != io.EOF {
+			errors.As(err, &ie)
+		}
+		lastWasNextOK = false
+		if pos == len(src) {
+			tags["eof-reached"] = true
+			if err != io.EOF {
+				bad(i, "", "next at end of input returned (%d,%v), want io.EOF", r, err)
+			}
+			return
+		}
+		want, sz := utf8.DecodeRune(src[pos:])
+		if want == utf8.RuneError && sz == 1 {
+			// ill-formed: must be reported, and not as the ordinary end of input
+			stop = true
+			if err == nil {
+				bad(i, "", "ill-formed UTF-8 at byte %d decoded silently as %d", pos, r)
+			} else if err == io.EOF {
+				sig := ""
+				if !utf8.FullRune(src[pos:]) {
+					sig = "truncated_rune_at_end"
+				}
+				bad(i, sig, "ill-formed UTF-8 at byte %d reported as the ordinary end of input (io.EOF)", pos)
+			} else {
+				tags["invalid-utf8-reported"] = true
+				// the error names the place of the ill-formed sequence: line and column of its first byte
+				if _, line, col := lineCol(src, pos); ie != nil {
+					if want := wantPosString(file, -1, line, col) + ": invalid utf-8 character"; err.Error() != want {
+						bad(i, "", "ill-formed UTF-8 at byte %d (line %d, column %d) reported as %q, want %q", pos, line, col, err.Error(), want)
+					}
+				}
+			}
+			return
+		}
+		if err != nil || r != want {
+			sig := ""
+			if src[pos] == 0 && err == io.EOF {
+				sig = "nul_in_source"
+			}
+			bad(i, sig, "next at byte %d returned (%d,%v), the source decodes to %d (buffer size %d, reader %s)", pos, r, err, want, n, readerSpec)
+			return
+		}
+		if sz > 1 && pos/n != (pos+sz-1)/n {
+			tags["rune-straddles-halves"] = true
+		}
+		if len(kept) > 0 && pos/n != (pos+sz)/n {
+			tags["lexeme-kept-across-reload"] = true
+		}
+		pos += sz
+		sizes = append(sizes, sz)
+		lastWasNextOK = true
+		if pos > n {
+			tags["reload"] = true
+		}
+		if pos > 2*n {
+			tags["wrap"] = true
+		}
+	}
 
 	for i, op := range c.Ops {
 		f := strings.Fields(op)
@@ -435,11 +674,28 @@ func exec(c hx.Case) hx.Result {
 				out = vout
 				return
 			}
+			if len(f) == 1 && f[0] == "reset" {
+				// the Input is dropped; the next new makes another one over the same source, the reader starts again.
+				// Lexemes handed out so far stay with the caller and are read again after every later call.
+				sc2, _ := parseReader(readerSpec, len(src))
+				rd = &reader{rest: append([]byte{}, src...), s: sc2}
+				short, zero, dataEOF = short+rd0.short, zero+rd0.zero, dataEOF+rd0.dataEOF
+				rd0 = rd
+				in, closed = nil, false
+				pos, begin, sizes, stop, lastWasNextOK = 0, 0, sizes[:0], false, false
+				checked = comp != "wild" && !sc.hasIOErr()
+				out = "ok reset"
+				tags["reset"] = true
+				return
+			}
 			if closed && len(f) == 1 {
 				out = "ok noinput"
 				return
 			}
-			if (f[0] == "new") != (in == nil) || len(f) != 1 {
+			k := 0
+			if f[0] == "nexts" && len(f) == 2 && decimal(f[1]) && in != nil {
+				k, _ = strconv.Atoi(f[1])
+			} else if (f[0] == "new") != (in == nil) || len(f) != 1 {
 				return // bad-op: new on a live input, anything else before new
 			}
 			switch f[0] {
@@ -461,77 +717,37 @@ func exec(c hx.Case) hx.Result {
 				}
 			case "next":
 				r, err := in.Next()
-				var ie *input.InputError
-				switch {
-				case err == nil:
-					out = "ok r " + strconv.Itoa(int(r))
-				case err == io.EOF:
-					out = "ok err eof"
-				case errors.As(err, &ie):
-					text := err.Error()
-					out = "ok err utf8 " + posStr(ie.Pos) + " " + quoted(text)
-					// formatting, whatever the stream: Error() is the position as Position.String documents it, ": ", the description
-					if want := wantPosString(file, ie.Pos.Offset, ie.Pos.Line, ie.Pos.Column) + ": " + ie.Description; text != want {
-						bad(i, "", "the error of next reads %q, want %q (file name given to New %q, position %s)", text, want, file, posFields(ie.Pos))
-					}
-					tags["error-text"] = true
-				default:
-					out = "ok err other"
+				out = showNext(i, r, err)
+				check = func() { checkNext(i, r, err) }
+			case "nexts":
+				// Next until k runes have come back or something that is not a rune has
+				type nr struct {
+					r   rune
+					err error
 				}
+				var got []nr
+				h, last := uint64(0xcbf29ce484222325), "-"
+				for len(got) < k {
+					r, err := in.Next()
+					got = append(got, nr{r, err})
+					if err != nil {
+						last = showNext(i, r, err)
+						break
+					}
+					h = (h ^ uint64(r)) * 0x100000001b3
+				}
+				cnt := len(got)
+				if last != "-" {
+					cnt--
+				}
+				out = fmt.Sprintf("ok nexts %d h%016x then %s", cnt, h, last)
+				tags["nexts-batch"] = true
 				check = func() {
-					lastWasNextOK = false
-					if pos == len(src) {
-						tags["eof-reached"] = true
-						if err != io.EOF {
-							bad(i, "", "next at end of input returned (%d,%v), want io.EOF", r, err)
+					for _, g := range got {
+						if res.BadOp >= 0 || stop {
+							break
 						}
-						return
-					}
-					want, sz := utf8.DecodeRune(src[pos:])
-					if want == utf8.RuneError && sz == 1 {
-						// ill-formed: must be reported, and not as the ordinary end of input
-						stop = true
-						if err == nil {
-							bad(i, "", "ill-formed UTF-8 at byte %d decoded silently as %d", pos, r)
-						} else if err == io.EOF {
-							sig := ""
-							if !utf8.FullRune(src[pos:]) {
-								sig = "truncated_rune_at_end"
-							}
-							bad(i, sig, "ill-formed UTF-8 at byte %d reported as the ordinary end of input (io.EOF)", pos)
-						} else {
-							tags["invalid-utf8-reported"] = true
-							// the error names the place of the ill-formed sequence: line and column of its first byte
-							if _, line, col := lineCol(src, pos); ie != nil {
-								if want := wantPosString(file, -1, line, col) + ": invalid utf-8 character"; err.Error() != want {
-									bad(i, "", "ill-formed UTF-8 at byte %d (line %d, column %d) reported as %q, want %q", pos, line, col, err.Error(), want)
-								}
-							}
-						}
-						return
-					}
-					if err != nil || r != want {
-						sig := ""
-						if src[pos] == 0 && err == io.EOF {
-							sig = "nul_in_source"
-						}
-						bad(i, sig, "next at byte %d returned (%d,%v), the source decodes to %d", pos, r, err, want)
-						return
-					}
-					if sz > 1 && pos/n != (pos+sz-1)/n {
-						tags["rune-straddles-halves"] = true
-					}
-					if len(kept) > 0 && pos/n != (pos+sz)/n {
-						tags["lexeme-kept-across-reload"] = true
-					}
-					pos += sz
-					sizes = append(sizes, sz)
-					lastWasNextOK = true
-					if pos > n {
-						tags["reload"] = true
-					}
-					if pos > 2*n {
-						tags["wrap"] = true
+						checkNext(i, g.r, g.err)
 					}
 				}
 			case "retract":
@@ -552,13 +768,18 @@ func exec(c hx.Case) hx.Result {
 					lastWasNextOK = false
 				}
 			case "lexeme":
-				if !input.VerifLexemeReturns(in) {
+				// (with an empty buffer, n = 0, both pointers stay 0: the loop body never runs and Lexeme returns)
+				if n > 0 && !input.VerifLexemeReturns(in) {
 					hung = true // the copying loop of Lexeme cannot terminate from this state (not called: it would exhaust memory)
 					return
 				}
 				s, p := in.Lexeme()
 				ps := p.String()
-				out = "ok x" + hex.EncodeToString([]byte(s)) + " " + posStr(p) + " " + quoted(ps)
+				if sum {
+					out = "ok l" + strconv.Itoa(len(s)) + ":h" + fnvBytes([]byte(s)) + " " + posStr(p) + " " + quoted(ps)
+				} else {
+					out = "ok x" + hex.EncodeToString([]byte(s)) + " " + posStr(p) + " " + quoted(ps)
+				}
 				if want := wantPosString(file, p.Offset, p.Line, p.Column); ps != want {
 					bad(i, "", "the position of the lexeme reads %q, want %q (file name given to New %q, position %s)", ps, want, file, posFields(p))
 				}
@@ -599,7 +820,11 @@ func exec(c hx.Case) hx.Result {
 				}
 			}
 			if in != nil {
-				out += " | " + input.VerifDump(in)
+				if sum {
+					out += " | " + sumDump(input.VerifDump(in))
+				} else {
+					out += " | " + input.VerifDump(in)
+				}
 			}
 		})
 		if hung {
@@ -619,22 +844,27 @@ func exec(c hx.Case) hx.Result {
 			break
 		}
 		res.Outs = append(res.Outs, out)
-		recheck(i) // strings are immutable: a kept lexeme must read the same after every later call, in every stream
+		// strings are immutable: a kept lexeme must read the same after every later call, in every stream
+		recheck(i, i%64 == 0 || i == len(c.Ops)-1)
 		if checked && !stop && check != nil {
 			check()
 			if pos-begin > n && comp == "input" {
-				tags["precondition-broken-by-generator"] = true
+				// the pending lexeme exceeds the buffer size: from here on the property says nothing. The
+				// generators never get here; a shrunk or hand-written call sequence may. (pos and begin are
+				// computed from the source and the calls alone, never from what the implementation returned.)
+				tags["precondition-broken"] = true
+				checked = false
 			}
 		}
 	}
 
-	if rd.short > 0 {
+	if short+rd.short > 0 {
 		tags["short-reads"] = true
 	}
-	if rd.zero > 0 {
+	if zero+rd.zero > 0 {
 		tags["zero-length-reads"] = true
 	}
-	if rd.dataEOF > 0 {
+	if dataEOF+rd.dataEOF > 0 {
 		tags["data-with-eof"] = true
 	}
 	tags["comp="+comp] = true
@@ -656,9 +886,12 @@ func exec(c hx.Case) hx.Result {
 // ---------------------------------------------------------------- generators
 
 var (
-	ascii   = []string{"a", "b", "c", "d", "e", " ", "\n", "\n"}
-	twoB    = []string{"\u00e9", "\u0080", "\u07ff", "\u01a9"}
-	threeB  = []string{"\u20ac", "\u0800", "\uffff", "\ud7ff", "\ue000", "\uaa40"}
+	// besides ordinary text: runes that coincide with something internal or conventional — CR and TAB, U+FFFD (what a
+	// decoder substitutes for ill-formed input, here well-formed), U+EEEE (grammar.Endmarker), U+FEFF (byte order mark),
+	// U+2028 (a line separator that is NOT a new line for the line counter), U+0085, U+00A0
+	ascii   = []string{"a", "b", "c", "d", "e", " ", "\n", "\n", "\r", "\t"}
+	twoB    = []string{"\u00e9", "\u0080", "\u07ff", "\u01a9", "\u0085", "\u00a0"}
+	threeB  = []string{"\u20ac", "\u0800", "\uffff", "\ud7ff", "\ue000", "\uaa40", "\ufffd", "\ueeee", "\ufeff", "\u2028"}
 	fourB   = []string{"\U00010000", "\U0010ffff", "\U0001f600", "\U00040000"}
 	invalid = []string{
 		"\x80", "\xbf", "\xc0\x80", "\xc1\xbf", "\xf5\x80\x80\x80", "\xff", // lone continuation, never-valid leads
@@ -714,6 +947,9 @@ func genReader(r *hx.Rand, n, srcLen int, ioerr bool) string {
 		return "half"
 	case 4:
 		return "dataeof"
+	}
+	if n < 1 {
+		n = 1
 	}
 	k := r.Range(1, 2*srcLen/((n+1)/2)+6)
 	if k > 60 {
@@ -852,7 +1088,8 @@ func header(comp string, src []byte, n int, reader string, file string) string {
 
 // file names given to New: none (twice as likely), plain, with a directory and a non-ASCII rune, with a space,
 // with the separators of the rendering and of the header
-var fileNames = []string{"", "", "a.src", "dir/\u00fc.txt", "x y", "a:b=c"}
+// and names that look like something else to the rendering: formatting verbs, quotes, a backslash, the end marker, digits
+var fileNames = []string{"", "", "a.src", "dir/\u00fc.txt", "x y", "a:b=c", "%d%s%!", "\"q\"", "a\\b", "\uEEEE", "$", "3:7", "0"}
 
 // ---- explicit positions and tokens (ops pos, tok)
 
@@ -987,6 +1224,378 @@ func genValueOp(r *hx.Rand) string {
 	return tokOp(t, u)
 }
 
+// ---------------------------------------------------------------- sizes: threshold sweep, long histories
+
+// sweepSizes: buffer sizes at the thresholds programmers pick (a uint8 / uint16 counter, bufio's 100 consecutive
+// empty reads, a block of 1024 / 4096 bytes), each with its two neighbours; 1..8, 16 and 64 are the sizes of the
+// other streams.
+var sweepSizes = []int{63, 64, 65, 100, 101, 102, 127, 128, 129, 255, 256, 257, 1023, 1024, 1025, 4095, 4096, 4097, 65536}
+
+// fill units of 23 bytes (23 divides none of the sizes, their neighbours or doubles: the text in a half never
+// repeats the text it replaces), plain and with runes of every length
+var fillUnits = [][]byte{
+	[]byte("abcde fghij\nklmno pqrs\n"),
+	[]byte("ab é€c\n\U0001f600de fg\nhij"),
+	[]byte("€€é \U00010000\n\uffff x\ty\r\n"),
+}
+
+func init() {
+	for _, u := range fillUnits {
+		if len(u) != 23 || !utf8.Valid(u) {
+			panic("c19: fill units are 23 bytes of well-formed UTF-8")
+		}
+	}
+}
+
+type srcBuilder struct {
+	spec []string
+	b    []byte
+}
+
+func (s *srcBuilder) raw(p []byte) {
+	if len(p) > 0 {
+		s.spec = append(s.spec, "x"+hex.EncodeToString(p))
+		s.b = append(s.b, p...)
+	}
+}
+
+// fill appends exactly k bytes of well-formed text: whole units, the longest prefix of a unit that ends at a rune
+// boundary, 'x' for what is left
+func (s *srcBuilder) fill(k int, unit []byte) {
+	if k <= 0 {
+		return
+	}
+	if q := k / len(unit); q > 0 {
+		s.spec = append(s.spec, strconv.Itoa(q)+"*x"+hex.EncodeToString(unit))
+		for ; q > 0; q-- {
+			s.b = append(s.b, unit...)
+		}
+	}
+	rem := k % len(unit)
+	cut := 0
+	for cut < rem {
+		_, sz := utf8.DecodeRune(unit[cut:])
+		if cut+sz > rem {
+			break
+		}
+		cut += sz
+	}
+	tail := append(append([]byte{}, unit[:cut]...), bytes.Repeat([]byte("x"), rem-cut)...)
+	s.raw(tail)
+}
+
+func (s *srcBuilder) header() string {
+	if len(s.spec) == 0 {
+		return "x"
+	}
+	return strings.Join(s.spec, "+")
+}
+
+// sweepSource: exactly L bytes of well-formed UTF-8 in which, wherever it fits, a multi-byte rune straddles the
+// boundary at every multiple of n (every reload of a half), at every possible split of the rune
+func sweepSource(r *hx.Rand, n, L int) (spec string, src []byte) {
+	unit := hx.Pick(r, fillUnits)
+	var sb srcBuilder
+	pos := 0
+	for b := n; b < L; b += n {
+		size := r.Range(2, 4)
+		start := b - r.Range(1, size-1)
+		if start < pos || start+size > L {
+			continue
+		}
+		sb.fill(start-pos, unit)
+		sb.raw([]byte(hx.Pick(r, [][]string{twoB, threeB, fourB}[size-2])))
+		pos = start + size
+	}
+	sb.fill(L-pos, unit)
+	return sb.header(), sb.b
+}
+
+// sweepLengths: source lengths at the buffer's own thresholds
+func sweepLengths(n int) []int {
+	return []int{0, 1, n - 1, n, n + 1, 2*n - 1, 2 * n, 2*n + 1, 10 * n}
+}
+
+// slowReaders need more than 100 calls of Read to fill a half of 101 bytes or more; sweepReaders is every behaviour
+// the io.Reader contract allows a reader that delivers the source: full, k bytes per call for k in 1..7, half of the
+// request, the last bytes together with io.EOF (alone and combined with short reads), (0, nil) answers interleaved —
+// up to 1000 in a row: the loop of load has no limit on empty reads, any finite number is tolerated — and mixtures.
+var slowReaders = []string{"one", "cycle:1e", "cycle:2", "cycle:0,1", "cycle:1,0,0,1e"}
+
+func sweepReaders() []string {
+	rs := []string{"full", "half", "dataeof", "cycle:he", "cycle:0,5", "cycle:0,0,0,7e", "cycle:h,0,2e,3",
+		"chunks:150*0,7,101*0,1,100*0,h,99*0", "chunks:1000*0,1,1000*0,E", "chunks:3,100*0,2e,256*0"}
+	for k := 3; k <= 7; k++ {
+		rs = append(rs, "cycle:"+strconv.Itoa(k))
+	}
+	return append(rs, slowReaders...)
+}
+
+// errorReaders (comp=wild: implementation against Model, the property says nothing): an I/O error once — at once, or
+// when the second or third half is loaded, with and without bytes — and full reads afterwards; the end of the input
+// signalled by an error that wraps io.EOF (to the code an I/O error: it compares with ==); an error of a custom type
+func errorReaders(n int) []string {
+	N := strconv.Itoa(n)
+	return []string{"chunks:" + N + "," + N + ",3x", "chunks:" + N + ",0x", "chunks:" + N + "," + N + ",0w", "chunks:" + N + ",1c,E",
+		"chunks:" + N + "," + N + "," + N + ",0w", "chunks:2x", "chunks:" + N + ",h,hx,0,1", "cycle:" + N + "," + N + "," + N + ",1c"}
+}
+
+type tracker struct {
+	src        []byte
+	pos, begin int
+	sizes      []int
+}
+
+func (t *tracker) sizeAt(p int) int {
+	_, sz := utf8.DecodeRune(t.src[p:])
+	return sz
+}
+
+// runesWithin: how many runes from pos on fit into maxBytes bytes
+func (t *tracker) runesWithin(maxBytes int) (k int) {
+	for p := t.pos; p < len(t.src); k++ {
+		sz := t.sizeAt(p)
+		if p+sz-t.pos > maxBytes {
+			break
+		}
+		p += sz
+	}
+	return k
+}
+
+func (t *tracker) advance(k int) {
+	for ; k > 0 && t.pos < len(t.src); k-- {
+		sz := t.sizeAt(t.pos)
+		t.pos += sz
+		t.sizes = append(t.sizes, sz)
+	}
+}
+
+// sweepOps: a call sequence for a (large) buffer: batches of Next (op nexts) up to shortly before the next half
+// boundary, single calls with retractions across it, lexemes of exactly limit bytes; the pending lexeme never
+// exceeds limit bytes (limit = n: the property's precondition; limit > n: comp=wild). style "stream": Next and Skip only.
+func sweepOps(r *hx.Rand, src []byte, n, limit int, style string, maxOps int) []string {
+	ops := []string{"new"}
+	t := &tracker{src: src}
+	flush := func() {
+		if style == "stream" || r.Chance(1, 3) {
+			ops = append(ops, "skip")
+		} else {
+			ops = append(ops, "lexeme")
+		}
+		t.begin, t.sizes = t.pos, t.sizes[:0]
+	}
+	batch := func(k int) {
+		if k == 1 && r.Bool() {
+			ops = append(ops, "next")
+		} else if k >= 1 {
+			ops = append(ops, "nexts "+strconv.Itoa(k))
+		}
+		t.advance(k)
+	}
+	if style == "stream" {
+		for t.pos < len(src) && len(ops) < maxOps {
+			var k int
+			switch r.Intn(4) {
+			case 0:
+				k = r.Range(1, 5)
+			case 1:
+				k = t.runesWithin(n - t.pos%n - r.Range(0, 3)) // up to just before the boundary
+			case 2:
+				k = t.runesWithin(r.Range(1, 3*n))
+			default:
+				k = t.runesWithin(len(src)) / r.Range(1, 4)
+			}
+			if k < 1 {
+				k = 1
+			}
+			batch(k)
+			if r.Chance(1, 6) {
+				flush()
+			}
+		}
+		return append(ops, "nexts 3", "next", "skip", "next")
+	}
+	single := func() {
+		switch x := r.Intn(100); {
+		case x < 55:
+			if t.pos >= len(src) {
+				ops = append(ops, "next")
+				return
+			}
+			sz := t.sizeAt(t.pos)
+			if t.pos-t.begin+sz > limit {
+				if t.pos == t.begin { // the rune alone is longer than the limit
+					ops = append(ops, "next", "skip")
+					t.pos += sz
+					t.begin, t.sizes = t.pos, t.sizes[:0]
+					return
+				}
+				flush()
+			}
+			batch(1)
+		case x < 75:
+			for k := r.Range(1, 3); k > 0; k-- {
+				ops = append(ops, "retract")
+				if l := len(t.sizes); l > 0 {
+					t.pos -= t.sizes[l-1]
+					t.sizes = t.sizes[:l-1]
+				}
+			}
+		default:
+			flush()
+		}
+	}
+	room := func() int { return limit - (t.pos - t.begin) }
+	for t.pos < len(src) && len(ops) < maxOps {
+		switch x := r.Intn(100); {
+		case x < 35: // up to shortly before the next half boundary, then step by step across it
+			target := n - t.pos%n - r.Range(0, 6)
+			if target > room() {
+				flush()
+			}
+			if target > room() {
+				target = room()
+			}
+			if target > 0 {
+				batch(t.runesWithin(target))
+			}
+			for j := r.Range(3, 12); j > 0; j-- {
+				single()
+			}
+		case x < 55: // a lexeme of exactly limit bytes, or just below; retract at its end and read again
+			flush()
+			batch(t.runesWithin(limit - hx.Pick(r, []int{0, 0, 0, 1, 2, limit / 2})))
+			if k := r.Intn(4); k > 0 && len(t.sizes) >= k {
+				for j := 0; j < k; j++ {
+					ops = append(ops, "retract")
+					t.pos -= t.sizes[len(t.sizes)-1]
+					t.sizes = t.sizes[:len(t.sizes)-1]
+				}
+				if r.Bool() {
+					batch(k)
+				}
+			}
+			flush()
+		case x < 70:
+			if room() < 4 {
+				flush()
+			}
+			batch(t.runesWithin(r.Range(1, room())))
+		default:
+			single()
+		}
+	}
+	// the end of the input: read into it, retract out of it, read again (retract / next re-read the same runes:
+	// the pending lexeme does not grow)
+	flush()
+	if k := t.runesWithin(limit); k > 5 {
+		batch(5)
+	} else {
+		batch(k)
+	}
+	if t.pos < len(src) {
+		return append(ops, "retract", "next", "lexeme")
+	}
+	return append(ops, "nexts 5", "next", "retract", "next", "lexeme", "next", "retract", "retract", "next", "skip", "next")
+}
+
+func sweepHeader(comp, srcSpec string, n int, reader, file string) string {
+	h := fmt.Sprintf("comp=%s src=%s n=%d reader=%s file=x%s", comp, srcSpec, n, reader, hex.EncodeToString([]byte(file)))
+	if n > 64 {
+		h += " dump=sum" // a buffer of 2n bytes on every line: printed as its hash
+	}
+	return h
+}
+
+// sweepCase: one case of the sweep for buffer size n, source length L, a reader, a style (0 tokens within the
+// precondition, 1 stream, 2 wild: pending lexemes of n+1 bytes and more)
+func sweepCase(run *hx.Run, r *hx.Rand, n, L int, reader string, style int) {
+	if L < 0 {
+		L = 0
+	}
+	spec, src := sweepSource(r, n, L)
+	maxOps := 400
+	if n > 5000 {
+		maxOps = 160
+	}
+	file := hx.Pick(r, fileNames)
+	switch style {
+	case 0:
+		run.Do("input", hx.Case{Header: sweepHeader("input", spec, n, reader, file), Ops: sweepOps(r, src, n, n, "tokens", maxOps)}, Exec)
+	case 1:
+		run.Do("stream", hx.Case{Header: sweepHeader("stream", spec, n, reader, file), Ops: sweepOps(r, src, n, n, "stream", maxOps)}, Exec)
+	default:
+		limit := n + hx.Pick(r, []int{1, 1, 2, n / 2, n - 1, n, n + 1})
+		run.Do("wild", hx.Case{Header: sweepHeader("wild", spec, n, reader, file), Ops: sweepOps(r, src, n, limit, "tokens", maxOps)}, Exec)
+	}
+}
+
+// sizeSweep: see Rule. Quick: per buffer size one slow reader for certain and a handful of random (reader, length,
+// style) combinations; thorough: the whole grid (for 65536 without the 10n sources except for four readers).
+func sizeSweep(run *hx.Run) {
+	r := run.R.Fork("sweep")
+	readers := sweepReaders()
+	for _, n := range sweepSizes {
+		lens := sweepLengths(n)
+		big := n > 5000
+		sweepCase(run, r, n, hx.Pick(r, lens[4:8]), hx.Pick(r, slowReaders), r.Intn(2))
+		cnt := run.Scale(5)
+		if big {
+			cnt = run.Scale(1)
+		}
+		for k := 0; k < cnt; k++ {
+			L := hx.Pick(r, lens)
+			if big && L > 3*n && r.Chance(3, 4) {
+				L = hx.Pick(r, lens[:8])
+			}
+			rd := hx.Pick(r, readers)
+			style := r.Intn(5) % 3 // tokens twice as likely
+			if r.Chance(1, 8) {
+				rd, style = hx.Pick(r, errorReaders(n)), 2
+			}
+			sweepCase(run, r, n, L, rd, style)
+		}
+		if run.Thorough() {
+			j := 0
+			for _, rd := range readers {
+				for li, L := range lens {
+					if big && li == 8 && rd != "full" && rd != "one" && rd != "cycle:7" && rd != "half" {
+						continue
+					}
+					sweepCase(run, r, n, L, rd, j%3)
+					j++
+				}
+			}
+			for _, rd := range errorReaders(n) {
+				sweepCase(run, r, n, hx.Pick(r, lens[3:]), rd, 2)
+			}
+		}
+	}
+}
+
+// longHistories: thousands of calls on one Input (small buffers, so that every few calls cross a half boundary):
+// the random mix of genOps (incl. scanner style) and the boundary-seeking mix of sweepOps
+func longHistories(run *hx.Run) {
+	r := run.R.Fork("long")
+	for k, cnt := 0, run.Scale(10); k < cnt; k++ {
+		n := hx.Pick(r, bufSizes)
+		length := r.Range(2000, 6000)
+		src := genSource(r, n, maxRuneFor(n), length/2+r.Intn(length))
+		reader := genReader(r, n, len(src), false)
+		if r.Bool() {
+			reader = hx.Pick(r, sweepReaders())
+		}
+		var ops []string
+		if r.Bool() {
+			ops = genOps(r, src, n, length, true)
+		} else {
+			ops = sweepOps(r, src, n, n, "tokens", length)
+		}
+		run.Do("input", hx.Case{Header: header("input", src, n, reader, hx.Pick(r, fileNames)), Ops: ops}, Exec)
+	}
+}
+
 func maxRuneFor(n int) int {
 	if n >= 4 {
 		return 4
@@ -1070,6 +1679,20 @@ func Main(run *hx.Run) {
 		run.Do("wild", c, Exec)
 	}
 
+	// 5b. sizes: buffer sizes at thresholds x reader behaviours x source lengths at the buffer's thresholds; long histories
+	sizeSweep(run)
+	longHistories(run)
+
+	// 5c. capacity 0: New succeeds with an empty buffer and the first Next indexes out of range (comp=wild: no claim,
+	//     implementation and Model must agree on where it panics)
+	r = run.R.Fork("zero")
+	for k, cnt := 0, run.Scale(3); k < cnt; k++ {
+		src := genSource(r, 1, 4, r.Intn(6))
+		c := hx.Case{Header: header("wild", src, 0, hx.Pick(r, []string{"full", "one", "dataeof", "chunks:0,0,1"}), hx.Pick(r, fileNames)),
+			Ops: genOps(r, src, 0, r.Range(2, 8), false)}
+		run.Do("wild", c, Exec)
+	}
+
 	// 6. Position.String / Equal / IsZero and Token.String / Equal on explicit values: one systematic case that reaches
 	//    every branch on every run, then random values; some cases interleave them with calls on an Input whose
 	//    source has an ill-formed sequence (so that the rendered error text, lexeme positions and explicit values
@@ -1124,25 +1747,52 @@ func Main(run *hx.Run) {
 		// sources, n in 1..3, readers full / one / dataeof; cases breaking the precondition go to comp=wild
 		srcs := [][]byte{[]byte("ab\ncd"), []byte("aéb"), []byte("€ab"), []byte("abcd"), []byte("ab")}
 		alpha := []string{"next", "retract", "lexeme", "skip"}
-		count := 0
+		count, batches := 0, 0
 		for _, src := range srcs {
 			for n := 1; n <= 3; n++ {
 				for _, rdr := range []string{"full", "one", "dataeof"} {
+					// many call sequences per case, separated by reset (a case costs far more than a call); those
+					// that keep the precondition and those that do not in cases of their own. A panic or hang
+					// ends a case: the sequences after it go into the next one.
+					seqs := map[string][][]string{}
 					for l := 1; l <= 7; l++ {
 						exhaustive(alpha, l, func(ops []string) {
 							comp := "input"
 							if !keeps(src, n, ops) {
 								comp = "wild"
 							}
-							run.Do(comp, hx.Case{Header: header(comp, src, n, rdr, fileNames[count%len(fileNames)]), Ops: append([]string{"new"}, ops...)}, Exec)
+							seqs[comp] = append(seqs[comp], ops)
 							count++
 						})
+					}
+					for _, comp := range []string{"input", "wild"} {
+						todo := seqs[comp]
+						for len(todo) > 0 {
+							m := min(64, len(todo))
+							var ops []string
+							var starts []int
+							for _, sq := range todo[:m] {
+								starts = append(starts, len(ops))
+								ops = append(append(append(ops, "new"), sq...), "reset")
+							}
+							res := run.Do(comp, hx.Case{Header: header(comp, src, n, rdr, fileNames[batches%len(fileNames)]), Ops: ops}, Exec)
+							batches++
+							done := m
+							if len(res.Outs) < len(ops) { // the case ended early: go on after the sequence it ended in
+								for j, st := range starts {
+									if st < len(res.Outs) {
+										done = j + 1
+									}
+								}
+							}
+							todo = todo[done:]
+						}
 					}
 				}
 			}
 		}
 		run.Stats.Exhaustive = true
-		run.Stats.Extra["exhaustive_part"] = fmt.Sprintf("%d cases: all call sequences of length<=7 over next/retract/lexeme/skip, 5 sources, n=1..3, readers full/one/dataeof", count)
+		run.Stats.Extra["exhaustive_part"] = fmt.Sprintf("%d call sequences in %d cases (up to 64 per case, separated by reset): all call sequences of length<=7 over next/retract/lexeme/skip, 5 sources, n=1..3, readers full/one/dataeof", count, batches)
 	}
 }
 
